@@ -61,5 +61,11 @@ def invoke (w : World) (dir : Bytes) (hadSteps : Bool) (bodyErr : Int) (endReach
 /-- robsd-kill -/
 def kill (w : World) : World := if w.lock.isSome then { w with immutable := true } else w
 
+/-- an invocation that owns the lock is ended by robsd-kill: the flag goes up,
+    the step runner is terminated (the step, and with it the run, fails with
+    `err`), the exit trap runs -/
+def killed (w : World) (dir : Bytes) (err : Int) (detach : Bool) : World :=
+  trapExit (kill w) dir true err false detach
+
 end Lock
 end Robsd
